@@ -85,3 +85,14 @@ Theorem sup_c06_after_shutdown c s i v :
   reachable_sup c s -> sd s = SdDone -> sd_timed_out s = false ->
   fin_at s i = Some v -> smap_at s i = Some v.
 Proof. intros Hre Hd Ht Hf. exact (proj2 (InvFin_reachable _ _ Hre) Hd Ht i v Hf). Qed.
+
+(* the store Shutdown does when a Stop() returns (definitional: it is the step): the map entry of a Stateable
+   runnable becomes its state at that moment - whether or not the later wait for the goroutines completes *)
+Lemma stopret_stores c s i s' :
+  step c s (LStopRet i) = Some s' -> stateable (spec c i) = true -> i < length (smap s) ->
+  smap_at s' i = Some (cur_at s i).
+Proof.
+  unfold step. cbn [step0]. intros H Hs Li. destruct (sd s); try discriminate H.
+  destruct (_ && _); [|discriminate H]. rewrite Hs in H. unfold store_state in H. rewrite Hs in H.
+  injection H as <-. unfold smap_at, cur_at. simp_st. now apply get_upd_same.
+Qed.
